@@ -152,6 +152,9 @@ class EventletWorker(AsyncWorker):
         return eventlet.Timeout(self.cfg.keepalive or None, False)
 
     def handle(self, listener, client, addr):
+        # Connected socket timeout defaults to socket.getdefaulttimeout().
+        # This forces to blocking mode (as the gevent worker does).
+        client.setblocking(1)
         if self.cfg.is_ssl:
             try:
                 client = ssl_wrap_socket(client, self.cfg)
